@@ -12,6 +12,7 @@ func init() {
 				{Dir: "hostsfile", Func: "VerifC07Free", Opts: o},
 				{Dir: "hostsfile", Func: "VerifC07Shapes", Opts: o},
 				{Dir: "hostsfile", Func: "VerifC07Addrs", Opts: o},
+				{Dir: "hostsfile", Func: "VerifC07IDN", Opts: o, NoCoverCheck: true},
 			}
 		},
 		Bounds: func(thorough bool) map[string]string {
@@ -22,11 +23,12 @@ func init() {
 			return map[string]string{
 				"free lines": "every ASCII line of length 0.." + n + " (no 'xn--' name label)",
 				"addresses":  "lead from {'', '::ffff:', '::FFFF:', '::', '64:ff9b::', '1::', '0:0:0:0:0:ffff:'} + dotted quad / 'h:h' / 'h' of arbitrary digits + optional '%' and one arbitrary byte, one space, one name of one arbitrary byte; grammar and Marshal/Unmarshal round trip",
+				"IDN names":  "a three-name line whose middle name is 3..5 labels of 50 two-byte letters or 29..32 two-byte labels plus a final label 'c'+one arbitrary ASCII byte (raw and punycode lengths on opposite sides of 253), through the real idna.ToASCII",
 				"shapes":     "ws* addr ws+ name (ws+ name){0..1} ws* ('#' 0..1|2 bytes)? with ws runs of 1..2 symbolic space/tab bytes, addr in {d.d.d.d, ::b, fe80::1%zone, 1..2|3 arbitrary bytes}, first name 1..2 arbitrary ASCII bytes, second name one byte (quick|thorough)",
 				"round trip": "every accepted record of the above is marshalled (real netip.Addr.MarshalText) and re-parsed",
 			}
 		},
-		Outside:     []string{"non-ASCII bytes and 'xn--' labels in names (idna.ToASCII internals)", "lines longer than the bound outside the shape family", "error message texts"},
+		Outside:     []string{"non-ASCII bytes outside the IDN length family and 'xn--' labels in names (idna.ToASCII internals)", "lines longer than the bound outside the shape family", "error message texts"},
 		Assumptions: []string{"reference from the statement: cut at '#', split on space/tab, real netip.ParseAddr for the first field, real netutil.ValidateDomainName for the names"},
 		Stubs:       []string{"fmt.Errorf (real wrapping error objects, opaque text)", "unique.Make (zone interning)", "internal/bytealg primitives"},
 		Technique:   "SSA->SMT bounded symbolic execution; reference field grammar + round trip on symbolic lines",
